@@ -14,7 +14,9 @@
  *   sn=<hex>|-|e            server name (- = NULL, e = empty string)
  *   hashes=<mask> rsa=0|1 ec=0|1 minrsa=N|-1 dnh=<hash id> impl=N
  *   key=R:<n>:<e>|E:<curve>:<q>|-  usages=N    expected leaf key and usages (on acceptance)
- *   ne=<k>/<ident hex>/<buflen>/<status|x>/<hex>,...   name elements requested + expected
+ *   ne=<k>/<ident hex>/<buflen>/<status|x|m>/<hex>,...   name elements requested + expected (x: not judged;
+ *                           m: the header leaves open whether the string is converted: -1, or 1 with this value)
+ *   sub=<label>             (optional) sub-class of the mutation, for the case description only
  *   tcb=nbd:nbs:nad:nas,...    expected time-callback arguments per certificate
  *   anchors=<flags>/<dn hex>/R/<n>/<e>;<flags>/<dn hex>/E/<curve>/<q>;...|-
  *   distinct=0|1            anchor names pairwise distinct (then dynamic-anchor modes are run too)
@@ -59,7 +61,7 @@ typedef struct {
 } nereq_t;
 
 typedef struct {
-	char id[96], cls[64];
+	char id[96], cls[64], sub[48];
 	int nd, exp, code, depth;
 	uint32_t days, secs; int tmode;
 	char *sn;           /* exact-size, or NULL */
@@ -81,7 +83,8 @@ typedef struct {
 	uint64_t keyhash; size_t keylen_a, keylen_b;
 	unsigned usages;
 	int ne_status[MAXNE];
-	char ne_val[MAXNE][264];
+	char ne_val[MAXNE][320];
+	int pkey_null_usages_differs;
 	int ntcb; uint32_t tcb[MAXCERTS][4];
 	int dyn_lookups, dyn_returned, dyn_freed, dyn_badlen, dyn_unknown_free;
 } result_t;
@@ -194,6 +197,7 @@ static void parse_case(char *line, case_t *c)
 #define NEED(k) do { v = tok_find(toks, ntok, k); if (!v) bad_case(k, keep); } while (0)
 	NEED("id"); snprintf(c->id, sizeof c->id, "%s", v);
 	NEED("cls"); snprintf(c->cls, sizeof c->cls, "%s", v);
+	v = tok_find(toks, ntok, "sub"); snprintf(c->sub, sizeof c->sub, "%s", v ? v : "-");
 	NEED("nd"); c->nd = atoi(v);
 	NEED("exp"); c->exp = v[0];
 	NEED("code"); c->code = atoi(v);
@@ -243,8 +247,8 @@ static void parse_case(char *line, case_t *c)
 			}
 			free(ident);
 			q->buflen = (size_t)atoi(sub[2]);
-			q->judged = sub[3][0] != 'x';
-			q->exp_status = q->judged ? atoi(sub[3]) : 0;
+			q->judged = sub[3][0] == 'x' ? 0 : sub[3][0] == 'm' ? 2 : 1;
+			q->exp_status = q->judged == 1 ? atoi(sub[3]) : q->judged == 2 ? 1 : 0;
 			q->exp = unhex_dup(sub[4][0] == '-' ? "" : sub[4], sub[4][0] == '-' ? 0 : strlen(sub[4]), &q->exp_len);
 		}
 	}
@@ -302,8 +306,11 @@ typedef struct {
 
 /* API-level variants of a run (0: none): 1 RSA anchor keys written with leading zero bytes; 2 time callback
  * reports the time as unavailable at certificate g_variant_arg; 4 the last byte of certificate g_variant_arg is
- * missing (announced and appended length both one less); 5 an empty certificate first */
-static int g_variant, g_variant_arg;
+ * missing (announced and appended length both one less); 5 an empty certificate first; 6 / 7 the context has been
+ * used for another validation before (g_poison: the name-element buffers are overwritten between the two);
+ * 8 the key_type field of every trust anchor carries the usage flags g_variant_arg (BR_KEYTYPE_KEYX / _SIGN) in
+ * its upper nibble; 9 dynamic anchors without a free callback; 10 context set up by br_x509_minimal_init_full() */
+static int g_variant, g_variant_arg, g_poison;
 
 static unsigned char *pad_dup(const unsigned char *src, size_t len, size_t pad)
 {
@@ -319,7 +326,7 @@ static void fill_ta(br_x509_trust_anchor *ta, const anchor_t *a, const unsigned 
 	ta->dn.data = vf_dup(dn, dn_len);
 	ta->dn.len = dn_len;
 	ta->flags = a->flags;
-	ta->pkey.key_type = (unsigned char)a->kt;
+	ta->pkey.key_type = (unsigned char)(a->kt | (g_variant == 8 ? g_variant_arg : 0));
 	if (a->kt == BR_KEYTYPE_RSA) {
 		if (g_variant == 1) {
 			ta->pkey.key.rsa.n = pad_dup(a->a, a->alen, 2); ta->pkey.key.rsa.nlen = a->alen + 2;
@@ -337,7 +344,7 @@ static void fill_ta(br_x509_trust_anchor *ta, const anchor_t *a, const unsigned 
 static void clear_ta(br_x509_trust_anchor *ta)
 {
 	free(ta->dn.data);
-	if (ta->pkey.key_type == BR_KEYTYPE_RSA) { free(ta->pkey.key.rsa.n); free(ta->pkey.key.rsa.e); }
+	if ((ta->pkey.key_type & 0x0F) == BR_KEYTYPE_RSA) { free(ta->pkey.key.rsa.n); free(ta->pkey.key.rsa.e); }
 	else free(ta->pkey.key.ec.q);
 }
 
@@ -435,11 +442,17 @@ static void run_chain(case_t *c, int amode, int chmode, uint64_t chseed, result_
 		br_x509_trust_anchor *t2 = vf_dup(tas, nst * sizeof *tas);
 		free(tas); tas = t2;
 	}
+	if (g_variant == 10) {
+		/* everything but the anchors, the time and the name elements is left to the library's defaults */
+		br_x509_minimal_init_full(xc, nst ? tas : NULL, (size_t)nst);
+		dnh = &br_sha256_vtable;
+	} else {
 	br_x509_minimal_init(xc, dnh, nst ? tas : NULL, (size_t)nst);
 	for (id = 1; id <= 6; id ++) {
 		if (c->hashes & (1u << id)) br_x509_minimal_set_hash(xc, id, hash_by_id(id));
 	}
-	if (c->rsa) {
+	}
+	if (c->rsa && g_variant != 10) {
 		br_rsa_pkcs1_vrfy f;
 		switch (c->impl & 3) {
 		case 1: f = &br_rsa_i15_pkcs1_vrfy; break;
@@ -449,7 +462,7 @@ static void run_chain(case_t *c, int amode, int chmode, uint64_t chseed, result_
 		}
 		br_x509_minimal_set_rsa(xc, f);
 	}
-	if (c->ec) {
+	if (c->ec && g_variant != 10) {
 		switch ((c->impl >> 2) & 3) {
 		case 1: br_x509_minimal_set_ecdsa(xc, &br_ec_prime_i15, &br_ecdsa_i15_vrfy_asn1); break;
 		case 2: br_x509_minimal_set_ecdsa(xc, &br_ec_prime_i31, &br_ecdsa_i31_vrfy_asn1); break;
@@ -459,10 +472,10 @@ static void run_chain(case_t *c, int amode, int chmode, uint64_t chseed, result_
 	tctx.c = c; tctx.r = r;
 	if (c->tmode || g_variant == 2) br_x509_minimal_set_time_callback(xc, &tctx, &time_cb);
 	else br_x509_minimal_set_time(xc, c->days, c->secs);
-	if (c->minrsa >= 0) br_x509_minimal_set_minrsa(xc, c->minrsa);
+	if (c->minrsa >= 0 && g_variant != 10) br_x509_minimal_set_minrsa(xc, c->minrsa);
 	memset(&dyn, 0, sizeof dyn);
 	dyn.c = c; dyn.amode = amode; dyn.hlen = hash_len(dnh); dyn.r = r;
-	if (amode != AM_STATIC) br_x509_minimal_set_dynamic(xc, &dyn, &dyn_lookup, &dyn_free);
+	if (amode != AM_STATIC) br_x509_minimal_set_dynamic(xc, &dyn, &dyn_lookup, g_variant == 9 ? NULL : &dyn_free);
 
 	nes = malloc((c->nne ? c->nne : 1) * sizeof *nes);
 	for (i = 0; i < c->nne; i ++) {
@@ -487,6 +500,10 @@ static void run_chain(case_t *c, int amode, int chmode, uint64_t chseed, result_
 			xc->vtable->end_cert(&xc->vtable);
 		}
 		(void)xc->vtable->end_chain(&xc->vtable);
+		if (g_poison) {
+			/* what the first validation left in the caller's buffers is not an input of the second one */
+			for (i = 0; i < c->nne; i ++) memset(nes[i].buf, 0x55, c->ne[i].buflen);
+		}
 		r->ntcb = 0; memset(r->tcb, 0, sizeof r->tcb);   /* what the time callback recorded during the warm-up is not part of the result */
 	}
 	xc->vtable->start_chain(&xc->vtable, c->sn);
@@ -519,7 +536,21 @@ static void run_chain(case_t *c, int amode, int chmode, uint64_t chseed, result_
 		xc->vtable->end_cert(&xc->vtable);
 	}
 	r->err = xc->vtable->end_chain(&xc->vtable);
-	pk = xc->vtable->get_pkey(&xc->vtable, &usages);
+	{
+		/* "if usage is not NULL then *usage is filled": the key itself does not depend on that argument */
+		const br_x509_pkey *pk0 = xc->vtable->get_pkey(&xc->vtable, NULL);
+		pk = xc->vtable->get_pkey(&xc->vtable, &usages);
+		if ((pk0 == NULL) != (pk == NULL)) r->pkey_null_usages_differs = 1;
+		else if (pk != NULL) {
+			if (pk0->key_type != pk->key_type) r->pkey_null_usages_differs = 1;
+			else if (pk->key_type == BR_KEYTYPE_RSA && (pk0->key.rsa.nlen != pk->key.rsa.nlen || pk0->key.rsa.elen != pk->key.rsa.elen
+				|| memcmp(pk0->key.rsa.n, pk->key.rsa.n, pk->key.rsa.nlen) || memcmp(pk0->key.rsa.e, pk->key.rsa.e, pk->key.rsa.elen)))
+				r->pkey_null_usages_differs = 1;
+			else if (pk->key_type == BR_KEYTYPE_EC && (pk0->key.ec.curve != pk->key.ec.curve || pk0->key.ec.qlen != pk->key.ec.qlen
+				|| memcmp(pk0->key.ec.q, pk->key.ec.q, pk->key.ec.qlen)))
+				r->pkey_null_usages_differs = 1;
+		}
+	}
 	if (pk != NULL) {
 		uint64_t h;
 		r->has_key = 1;
@@ -588,13 +619,79 @@ static char casebuf[512];
 
 static const char *case_desc(const case_t *c, const char *extra)
 {
-	snprintf(casebuf, sizeof casebuf, "id=%s cls=%s nd=%d exp=%c code=%d %s", c->id, c->cls, c->nd, c->exp, c->code, extra);
+	snprintf(casebuf, sizeof casebuf, "id=%s cls=%s sub=%s nd=%d exp=%c code=%d %s", c->id, c->cls, c->sub, c->nd, c->exp, c->code, extra);
 	return casebuf;
 }
 
 static void key_of(char *dst, size_t n, const char *mon, const case_t *c)
 {
 	snprintf(dst, n, "C04:%s:%s", mon, c->cls);
+}
+
+/* ------------------------------------------------------------------ */
+/* the "known key" engine: ignores the certificates, returns the configured key and usages */
+
+static void knownkey_check(case_t *c)
+{
+	int i, j;
+	char key[160], extra[200];
+	for (i = -1; i < c->nanch && i < 2; i ++) {
+		int kt = i < 0 ? c->key_kt : c->anch[i].kt;
+		const unsigned char *ka = i < 0 ? c->key_a : c->anch[i].a, *kb = i < 0 ? c->key_b : c->anch[i].b;
+		size_t alen = i < 0 ? c->key_alen : c->anch[i].alen, blen = i < 0 ? c->key_blen : c->anch[i].blen;
+		int curve = i < 0 ? c->key_curve : c->anch[i].curve;
+		unsigned want = (unsigned)((c->chunk >> (12 + 2 * (i + 1))) & 3) << 4, got = 0xFFFF, err;
+		br_x509_knownkey_context *kc;
+		const br_x509_pkey *pk, *pk0;
+		unsigned char *a, *b;
+		const char *bad = NULL;
+		if (ka == NULL) continue;
+		kc = malloc(sizeof *kc);
+		memset(kc, 0xA5, sizeof *kc);
+		a = vf_dup(ka, alen); b = kb ? vf_dup(kb, blen) : NULL;
+		if (kt == BR_KEYTYPE_RSA) {
+			br_rsa_public_key *rk = malloc(sizeof *rk);
+			rk->n = a; rk->nlen = alen; rk->e = b; rk->elen = blen;
+			br_x509_knownkey_init_rsa(kc, rk, want);
+			memset(rk, 0x5A, sizeof *rk); free(rk);    /* the structure is copied, the buffers are linked */
+		} else {
+			br_ec_public_key *ek = malloc(sizeof *ek);
+			ek->curve = curve; ek->q = a; ek->qlen = alen;
+			br_x509_knownkey_init_ec(kc, ek, want);
+			memset(ek, 0x5A, sizeof *ek); free(ek);
+		}
+		kc->vtable->start_chain(&kc->vtable, c->sn);
+		for (j = 0; j < c->ncerts; j ++) {
+			kc->vtable->start_cert(&kc->vtable, (uint32_t)c->certs[j].len);
+			if (c->certs[j].len) kc->vtable->append(&kc->vtable, c->certs[j].der, c->certs[j].len);
+			kc->vtable->end_cert(&kc->vtable);
+		}
+		err = kc->vtable->end_chain(&kc->vtable);
+		pk0 = kc->vtable->get_pkey(&kc->vtable, NULL);
+		pk = kc->vtable->get_pkey(&kc->vtable, &got);
+		vf_stat("cmp_knownkey", 1);
+		vf_stat(kt == BR_KEYTYPE_RSA ? "knownkey_rsa" : "knownkey_ec", 1);
+		vf_distinct("knownkey_usages", "%u", want);
+		if (err != 0) bad = "end_chain-nonzero";
+		else if (pk == NULL || pk0 == NULL) bad = "no-key";
+		else if (got != want) bad = "usages";
+		else if (pk->key_type != kt) bad = "key-type";
+		else if (kt == BR_KEYTYPE_RSA && (pk->key.rsa.n != a || pk->key.rsa.nlen != alen || pk->key.rsa.e != b || pk->key.rsa.elen != blen)) bad = "rsa-key";
+		else if (kt == BR_KEYTYPE_EC && (pk->key.ec.curve != curve || pk->key.ec.q != a || pk->key.ec.qlen != alen)) bad = "ec-key";
+		else if (pk0->key_type != pk->key_type || memcmp(&pk0->key, &pk->key, kt == BR_KEYTYPE_RSA ? sizeof pk->key.rsa : sizeof pk->key.ec)) bad = "null-usages";
+		if (bad) {
+			snprintf(key, sizeof key, "C04:knownkey:%s", bad);
+			snprintf(extra, sizeof extra, "known-key engine with %s key of %zu bytes, usages 0x%x: end_chain=%u usages=0x%x", kt == BR_KEYTYPE_RSA ? "RSA" : "EC", alen, want, err, got);
+			vf_viol(key, "br_x509_knownkey engine does not return 0 / the configured key and usages", "%s", case_desc(c, extra));
+		}
+		free(a); free(b); free(kc);
+	}
+}
+
+static int config_is_default(const case_t *c)
+{
+	/* what br_x509_minimal_init_full() sets: all standard hash functions, RSA, ECDSA; minimum RSA size untouched */
+	return (c->hashes & 0x7C) == 0x7C && c->rsa && c->ec && (c->minrsa < 0 || c->minrsa == 128);
 }
 
 int main(int argc, char **argv)
@@ -651,6 +748,32 @@ int main(int argc, char **argv)
 			}
 		}
 
+		vf_stat("cmp_getpkey_null_usages", 1);
+		if (r0.pkey_null_usages_differs || r1.pkey_null_usages_differs) {
+			key_of(key, sizeof key, "getpkey-null-usages", &c);
+			vf_viol(key, "get_pkey(ctx, NULL) returns another key than get_pkey(ctx, &usages)", "%s", case_desc(&c, ""));
+		}
+		if ((c.chunk >> 11) & 1) knownkey_check(&c);
+
+		/* context set up by br_x509_minimal_init_full() (every second case): judged when the case configuration is
+		   what that function sets */
+		if (config_is_default(&c) ? ((c.chunk >> 6) & 1) == 0 : ((c.chunk >> 6) & 3) == 0) {
+			result_t rv;
+			g_variant = 10;
+			run_chain(&c, AM_STATIC, CH_WHOLE, 0, &rv);
+			g_variant = 0;
+			if (!config_is_default(&c)) {
+				vf_stat("unjudged_init_full_other_config", 1);
+			} else {
+				vf_stat("cmp_init_full", 1);
+				if (!same_result(&r0, &rv)) {
+					key_of(key, sizeof key, "init-full", &c);
+					snprintf(extra, sizeof extra, "hand-configured:err=%u init_full:err=%u", r0.err, rv.err);
+					vf_viol(key, "context initialised with br_x509_minimal_init_full() gives another result than the same configuration set by hand", "%s", case_desc(&c, extra));
+				}
+			}
+		}
+
 		/* (5) dynamic anchors */
 		if (c.distinct) {
 			int m;
@@ -680,6 +803,21 @@ int main(int argc, char **argv)
 			}
 		}
 
+		/* dynamic anchors without a free callback (the harness releases what it handed out after the validation) */
+		if (c.distinct && ((c.chunk >> 9) & 3) == 0) {
+			result_t rv;
+			g_variant = 9;
+			run_chain(&c, AM_DYNAMIC, CH_WHOLE, 0, &rv);
+			g_variant = 0;
+			vf_stat("cmp_dynamic_null_free", 1);
+			vf_stat("dyn_null_free_returned", rv.dyn_returned);
+			if (!same_result(&r0, &rv) || rv.dyn_freed || rv.dyn_unknown_free) {
+				key_of(key, sizeof key, "dynamic-null-free", &c);
+				snprintf(extra, sizeof extra, "static:err=%u dynamic-without-free-callback:err=%u returned=%d", r0.err, rv.err, rv.dyn_returned);
+				vf_viol(key, "dynamic anchors with a NULL free callback give another result than static anchors", "%s", case_desc(&c, extra));
+			}
+		}
+
 		/* dates handed to the time callback */
 		if (c.tmode) {
 			int k = r0.ntcb < c.ntcb ? r0.ntcb : c.ntcb;
@@ -704,8 +842,23 @@ int main(int argc, char **argv)
 		if ((c.chunk & 3) == 2) {
 			result_t rv;
 			for (g_variant = 6; g_variant <= 7; g_variant ++) {
-				run_chain(&c, AM_STATIC, CH_WHOLE, 0, &rv);
+				/* one of the two with the anchors behind the dynamic callback (when their names allow it) and the
+				   name-element buffers overwritten between the two validations */
+				int hard = (int)((c.chunk >> 2) & 1) == (g_variant & 1);
+				g_poison = hard;
+				run_chain(&c, hard && c.distinct ? AM_DYNAMIC : AM_STATIC, CH_WHOLE, 0, &rv);
+				g_poison = 0;
 				vf_stat("cmp_variant_context_reuse", 1);
+				if (hard) vf_stat("context_reuse_poisoned_buffers", 1);
+				if (hard && c.distinct) {
+					vf_stat("context_reuse_dynamic_anchors", 1);
+					vf_stat("context_reuse_dyn_returned", rv.dyn_returned);
+					if (rv.dyn_freed != rv.dyn_returned || rv.dyn_unknown_free) {
+						key_of(key, sizeof key, "dynfree", &c);
+						snprintf(extra, sizeof extra, "context reuse: returned=%d freed=%d unknown_or_double_free=%d", rv.dyn_returned, rv.dyn_freed, rv.dyn_unknown_free);
+						vf_viol(key, "dynamic anchors not freed exactly once each / hashed DN length wrong", "%s", case_desc(&c, extra));
+					}
+				}
 				if (!same_result(&r0, &rv)) {
 					key_of(key, sizeof key, "variant:context-reuse", &c);
 					snprintf(extra, sizeof extra, "fresh context: err=%u; context used before for %s: err=%u", r0.err,
@@ -728,6 +881,12 @@ int main(int argc, char **argv)
 				snprintf(extra, sizeof extra, "plain:err=%u padded:err=%u", r0.err, rv.err);
 				vf_viol(key, "RSA trust anchor keys written with leading zero bytes give another result", "%s", case_desc(&c, extra));
 			}
+			/* the header says a public key carries the basic key type only: an anchor whose key_type has usage
+			   flags in the upper nibble is outside the documentation: executed, compared, not judged */
+			g_variant = 8; g_variant_arg = 0x10 << ((c.chunk >> 7) & 1); if (((c.chunk >> 8) & 3) == 0) g_variant_arg = 0x30;
+			run_chain(&c, AM_STATIC, CH_WHOLE, 0, &rv);
+			vf_stat("unjudged_anchor_keytype_flags", 1);
+			vf_stat(same_result(&r0, &rv) ? "unjudged_anchor_keytype_flags_same_result" : "unjudged_anchor_keytype_flags_other_result", 1);
 			g_variant = 2; g_variant_arg = (int)((c.chunk >> 1) % (unsigned)(depth + 1));
 			run_chain(&c, AM_STATIC, CH_WHOLE, 0, &rv);
 			vf_stat("cmp_variant_time_unavailable", 1);
@@ -793,6 +952,8 @@ int main(int argc, char **argv)
 					nereq_t *q = &c.ne[i];
 					if (!q->judged) { vf_stat("names_not_judged", 1); continue; }
 					vf_stat("cmp_names", 1);
+					if (q->judged == 2) vf_stat(r0.ne_status[i] == 1 ? "names_doc_open_converted" : "names_doc_open_error", 1);
+					if (q->judged == 2 && r0.ne_status[i] == -1) continue;
 					if (r0.ne_status[i] != q->exp_status
 						|| (q->exp_status == 1 && (strlen(r0.ne_val[i]) != q->exp_len || memcmp(r0.ne_val[i], q->exp, q->exp_len))))
 					{
